@@ -361,7 +361,7 @@ func checkC12(c *Ctx, n int) {
 				key := "C12:value-not-reproduced"
 				// omitted as "default" (zero / default tags) while the program had stored another
 				// value in the field beforehand: the fresh parser keeps that stored value
-				if init, ok := inits[refs[ref].Field().Name]; ok && init != "" && vb == init && !strings.Contains("\n"+text, "\n"+optionIniNameOf(refs[ref])+" =") {
+				if init, ok := inits[refs[ref].Field().Name]; ok && init != "" && vb == canonMapText(init) && !strings.Contains("\n"+text, "\n"+optionIniNameOf(refs[ref])+" =") {
 					key = "C12:omitted-as-default-but-field-preinitialised"
 				}
 				// omitted as equal to its default TAGS while an environment variable (which ranks above
@@ -383,6 +383,17 @@ func checkC12(c *Ctx, n int) {
 			}
 		}
 	}
+}
+
+// canonMapText sorts the entries of a map value text (the observation format lists a map's entries
+// sorted; a stored initial value is written in generation order)
+func canonMapText(v string) string {
+	if !strings.HasPrefix(v, "M[") {
+		return v
+	}
+	parts := strings.Split(v[2:], ",")
+	sort.Strings(parts)
+	return "M[" + strings.Join(parts, ",")
 }
 
 // ---------------------------------------------------------------- C14: robustness and error location
